@@ -26,7 +26,7 @@ package syncer
 
 //@ func RedisOutput.parseAofCommand
 //@   arith int
-//@   properties C07 C01 C09
+//@   properties C07 C01 C09 C12
 //@   nopanic
 //@   replay syncer_parseAofCommand syncer_dbFilterBrackets syncer_dbFilterExecDropped syncer_zeroArgPublish
 //@   ghost var pos mathint
